@@ -87,6 +87,7 @@ type Exec struct {
 	ReqCells []Cell
 	ReqScan  *pb.ScanRequest
 	Header   *pb.RequestHeader
+	ArrT     int64  // fake time at which the request frame was written
 	ArrStep  uint64 // scheduler step at which the request frame was written
 	Step     uint64 // scheduler step of the execution
 	RespEnd  int    // end offset of the response in the connection's response stream (0 = none)
@@ -335,7 +336,7 @@ func (c *Cluster) excMsg(class, msg string, e *Exec) string {
 
 func (c *Cluster) newExec(req *Request, kind string) *Exec {
 	c.ExecSeq++
-	e := &Exec{Seq: c.ExecSeq, Kind: kind, Server: req.Conn.Server.Idx, Conn: req.Conn.ID, CallID: req.CallID, ReqSeq: req.Seq, Header: req.Frame.Header, ArrStep: req.ArrStep}
+	e := &Exec{Seq: c.ExecSeq, Kind: kind, Server: req.Conn.Server.Idx, Conn: req.Conn.ID, CallID: req.CallID, ReqSeq: req.Seq, Header: req.Frame.Header, ArrStep: req.ArrStep, ArrT: req.Arrived}
 	if c.StepFn != nil {
 		e.Step = c.StepFn()
 	}
@@ -377,7 +378,11 @@ func (c *Cluster) checkRegion(e *Exec, spec *pb.RegionSpecifier, row []byte, nee
 	e.Table = r.Table
 	if needRow && !r.Contains(row) && e.Nonce == 0 {
 		// an internal request of the client (establishment probe): not a user
-		// request, answered as HBase would
+		// request, answered as HBase would: the region is looked up first
+		// (not serving), then the row is checked (wrong region)
+		if r.State != Open || r.Server != e.Server {
+			return nil, ExNotServing, name + " is not online on " + srv.Addr
+		}
 		return nil, ExWrongRegion, fmt.Sprintf("Requested row out of range for row %q", row)
 	}
 	if needRow && !r.Contains(row) {
@@ -648,6 +653,7 @@ func (c *Cluster) Execute(req *Request) []byte {
 		if e.Nonce == 0 && g.GetExistenceOnly() {
 			e.Kind = "Probe"
 		}
+		e.Region = string(m.GetRegion().GetValue())
 		if srv.Aborted != "" {
 			return hdrExc(e, srv.Aborted, "server is going down")
 		}
@@ -689,6 +695,7 @@ func (c *Cluster) Execute(req *Request) []byte {
 		c.checkMutationCells(e, mu, cells)
 		e.Nonce = nonceOfMutation(mu, cells)
 		e.ReqMut, e.ReqCells, e.ReqCond = mu, cells, m.Condition
+		e.Region = string(m.GetRegion().GetValue())
 		if srv.Aborted != "" {
 			return hdrExc(e, srv.Aborted, "server is going down")
 		}
